@@ -145,6 +145,7 @@ func extractAll(outdir string) {
 	files["OrderSites.lean"] = extractOrder()
 	files["TemplateFacts.lean"] = extractTemplate()
 	files["Operators.lean"] = extractOperators()
+	files["ImportFacts.lean"] = extractImports()
 	sort.Strings(untranslatable)
 	files["Untranslatable.lean"] = genHeader + "namespace Sqlc.Gen\n/-- source shapes the translator could not match; the obligation `untranslatable = []` is part of every check -/\ndef untranslatable : List String := " + lstrs(untranslatable) + "\nend Sqlc.Gen\n"
 	// delete stale files
